@@ -913,7 +913,7 @@ package leader
 //@   ensures C06.vacancy_triggers_acquire: got && (getErr != nil || getEnt == nil || LenOf(EntryVal(getEnt)) == 0) ==> scalls(attemptAcquireWithRetry) == 1
 //@   ensures C13.no_acquire_on_live_record: got && getErr == nil && getEnt != nil && LenOf(EntryVal(getEnt)) != 0 ==> scalls(attemptAcquireWithRetry) == 0
 //@   ensures C06.leader_skips: !got ==> scalls(attemptAcquireWithRetry) == 0
-//@   on call startAcquire as c assert C06+C09.acquire_bound_to_given_ctx: c.ctx == ctx
+//@   on call attemptAcquireWithRetry as c assert C06+C09.acquire_bound_to_given_ctx: c.ctx == ctx
 //@   ensures C06.periodic_check_skipped_only_by_leader: !got ==> sawLeader
 
 //@ func (e *kvElection) handleWatchEvent(entry)
@@ -932,11 +932,9 @@ package leader
 //@   on ret becomeFollower as r set cleared = r.result
 //@   on call attemptAcquire assert C10.watch_gate: e.cfg.AllowPriorityTakeover && ParseOK(EntryVal(entry)) && e.cfg.Priority > PrioOf(EntryVal(entry))
 //@   ghost ectx Int = 0
-//@   ghost acqCtx Int = 0
 //@   on load kvElection.ctx as l set ectx = l.value
-//@   on call startAcquire as c set acqCtx = c.ctx
-//@   on call startAcquire as c assert C06+C09.acquire_bound_to_election_ctx: c.ctx == ectx
-//@   ensures C06.vacancy_triggers_acquire: entry == nil || LenOf(EntryVal(entry)) == 0 ==> calls(startAcquire) == 1 && (acqCtx != nil ==> scalls(attemptAcquireWithRetry) == 1)
+//@   on call attemptAcquireWithRetry as c assert C06+C09.acquire_bound_to_election_ctx: c.ctx == ectx
+//@   ensures C06.vacancy_triggers_acquire: entry == nil || LenOf(EntryVal(entry)) == 0 ==> (ectx != nil ==> scalls(attemptAcquireWithRetry) == 1)
 //@   ensures C13.no_acquire_on_live_record: entry != nil && LenOf(EntryVal(entry)) != 0 ==> scalls(attemptAcquireWithRetry) == 0
 //@   ghost knownLeader Int = 0
 //@   on load kvElection.leaderID as l set knownLeader = l.value
